@@ -91,6 +91,11 @@ pub fn check_tot(case: &TotCase) -> Outcome {
     o
 }
 
+#[derive(Clone, Debug, Serialize, Deserialize)]
+pub struct RawCase {
+    pub bytes: Vec<u8>,
+}
+
 // ------------------------------------------------------------------ (b) faithfulness
 
 #[derive(Clone, Debug, Serialize, Deserialize)]
@@ -412,6 +417,17 @@ pub fn def() -> PropDef {
                 run: |ctx| run_proptest(ctx, "totality", tot_strategy(), check_tot),
                 replay: |v| replay_case::<TotCase>(v, check_tot),
                 min_class: &[("accepted", 0.1), ("rejected", 0.3)],
+            },
+            Sub {
+                name: "raw",
+                cases: |_| 0,
+                run: |_| WorkerReport::default(),
+                replay: |v| replay_case::<RawCase>(v, |c| {
+                    let mut o = Outcome::new();
+                    check_bytes_total(&c.bytes, &mut o);
+                    o
+                }),
+                min_class: &[],
             },
             Sub {
                 name: "create",
